@@ -4,6 +4,7 @@ package main
 
 import (
 	"fmt"
+	"os"
 	"go/types"
 	"strings"
 
@@ -20,6 +21,7 @@ type FuncResult struct {
 	SupersededAt map[*Term]int
 	Err      string // outside the subset / stale contract
 	Notes    []string
+	Parts    []*FuncResult // one per case combination (each with its own facts)
 	Params   []*Term
 	ParamNames []string
 	ErrGlobals []*Term
@@ -112,26 +114,55 @@ func (e *Engine) VerifyFunction(c *Contract) (res *FuncResult) {
 	e.havocCells = map[*ssa.BasicBlock]map[ssa.Value]bool{}
 	e.havocHeaps = map[*ssa.BasicBlock]map[string]bool{}
 	e.havocClock = map[*ssa.BasicBlock]bool{}
-	for run := 1; run <= 12; run++ {
-		res.Runs = run
-		e.resetRun()
-		e.notes = nil
-		e.errGlobals = nil
-		e.runOnce(c, fn, res)
-		if !e.restart {
-			break
+	// cross product of the case groups (proof hint); a single empty combination without cases
+	combos := [][]int{{}}
+	for _, cg := range c.Cases {
+		var next [][]int
+		for _, co := range combos {
+			for i := range cg.Alts {
+				next = append(next, append(append([]int{}, co...), i))
+			}
 		}
-		if run == 12 {
-			unsupported("loop write-set discovery did not converge")
-		}
+		combos = next
 	}
-	res.Obls = e.obls
-	res.Facts = e.facts
-	res.FactKind = e.factKind
-	res.FactSeq = e.factSeq
-	res.SupersededAt = e.supersededAt
-	res.Notes = e.notes
-	res.ErrGlobals = e.errGlobals
+	res.Parts = nil
+	for _, co := range combos {
+		e.caseCombo = co
+		for run := 1; run <= 12; run++ {
+			res.Runs = run
+			e.resetRun()
+			e.notes = nil
+			e.errGlobals = nil
+			func() {
+				defer func() { e.tb.Known = nil; e.tb.Rewrite = nil }()
+				e.runOnce(c, fn, res)
+			}()
+			if !e.restart {
+				break
+			}
+			if run == 12 {
+				unsupported("loop write-set discovery did not converge")
+			}
+		}
+		suffix := ""
+		for i, k := range co {
+			suffix += fmt.Sprintf("@%s=%d", c.Cases[i].Name, k)
+		}
+		part := &FuncResult{Contract: c, Name: res.Name, Obls: e.obls, Facts: e.facts, FactKind: e.factKind, FactSeq: e.factSeq,
+			SupersededAt: e.supersededAt, Notes: e.notes, ErrGlobals: e.errGlobals, Params: res.Params, ParamNames: res.ParamNames, Runs: res.Runs}
+		for _, o := range part.Obls {
+			o.Name += suffix
+			o.Label += suffix
+		}
+		res.Parts = append(res.Parts, part)
+		res.Obls = append(res.Obls, part.Obls...)
+		res.Notes = append(res.Notes, e.notes...)
+	}
+	e.caseCombo = nil
+	if len(res.Parts) == 1 {
+		p := res.Parts[0]
+		res.Facts, res.FactKind, res.FactSeq, res.SupersededAt, res.ErrGlobals = p.Facts, p.FactKind, p.FactSeq, p.SupersededAt, p.ErrGlobals
+	}
 	return res
 }
 
@@ -190,9 +221,184 @@ func (e *Engine) runOnce(c *Contract, fn *ssa.Function, res *FuncResult) {
 	}
 	entry := st.clone()
 	fr.entry = entry
+	known := map[*Term]bool{}
+	var pendingNand []*Term
 	for _, cl := range c.Requires {
 		g := e.evalClause(fr, st, entry, cl, nil)
 		e.addFact(st, g)
+		// the atoms of a precondition talk about the entry state only: they hold throughout
+		var atoms func(t *Term, pos bool)
+		atoms = func(t *Term, pos bool) {
+			switch {
+			case t.Op == "and" && pos:
+				for _, a := range t.Args {
+					atoms(a, true)
+				}
+			case t.Op == "or" && !pos:
+				for _, a := range t.Args {
+					atoms(a, false)
+				}
+			case t.Op == "not":
+				atoms(t.Args[0], !pos)
+			case t.Op == "and" && !pos:
+				pendingNand = append(pendingNand, t)
+			case t.Op == "=>" && pos:
+				pendingNand = append(pendingNand, tb.And(t.Args[0], tb.Not(t.Args[1])))
+			case t.IsLit() || t.Op == "forall" || t.Op == "=>":
+			default:
+				known[t] = pos
+			}
+		}
+		atoms(g, true)
+		// unit propagation over the negated conjunctions (they come from && chains in Go specs)
+		for changed := true; changed; {
+			changed = false
+			var rest []*Term
+			for _, n := range pendingNand {
+				var open []*Term
+				sat := false
+				for _, x := range n.Args {
+					y, pos := x, true
+					if y.Op == "not" {
+						y, pos = y.Args[0], false
+					}
+					if v, ok := known[y]; ok {
+						if v != pos {
+							sat = true
+						}
+						continue
+					}
+					if y.Op == "and" && pos {
+						// nested conjunction: treat as open unless all members known true
+						all := true
+						for _, z := range y.Args {
+							zz, zp := z, true
+							if zz.Op == "not" {
+								zz, zp = zz.Args[0], false
+							}
+							if v, ok := known[zz]; !ok || v != zp {
+								all = false
+							}
+						}
+						if all {
+							continue
+						}
+					}
+					open = append(open, x)
+				}
+				if sat {
+					continue
+				}
+				if len(open) == 1 {
+					atoms(open[0], false)
+					changed = true
+					continue
+				}
+				rest = append(rest, n)
+			}
+			pendingNand = rest
+		}
+	}
+	tb.Known = known
+	// orient equalities of the precondition whose one side is a load path of the entry state
+	rw := map[*Term]*Term{}
+	isLoadPath := func(t *Term) bool {
+		x := t
+		for x.Op == "acc" {
+			x = x.Args[0]
+		}
+		return x != t && x.Op == "select" && x.Args[0].Op == "const" && strings.HasPrefix(x.Args[0].Name, "h0_")
+	}
+	contains := func(t, x *Term) bool {
+		found := false
+		vis := map[*Term]bool{}
+		var rec func(t *Term)
+		rec = func(t *Term) {
+			if found || vis[t] {
+				return
+			}
+			vis[t] = true
+			if t == x {
+				found = true
+				return
+			}
+			for _, a := range t.Args {
+				rec(a)
+			}
+		}
+		rec(t)
+		return found
+	}
+	for t, v := range known {
+		if !v || t.Op != "=" {
+			continue
+		}
+		a, b := t.Args[0], t.Args[1]
+		switch {
+		case isLoadPath(a) && !contains(b, a) && !(isLoadPath(b) && b.id < a.id):
+			rw[a] = b
+		case isLoadPath(b) && !contains(a, b):
+			rw[b] = a
+		}
+	}
+	// resolve chains (a -> b, b -> c) conservatively: drop rules whose target contains another rule's source
+	for src, dst := range rw {
+		for other := range rw {
+			if other != src && contains(dst, other) {
+				delete(rw, src)
+				break
+			}
+		}
+	}
+	tb.Rewrite = rw
+	if os.Getenv("GOVC_DEBUG") != "" {
+		for a, b := range rw {
+			fmt.Fprintf(os.Stderr, "REWRITE %s -> %s\n", tb.Show(a), tb.Show(b))
+		}
+		for a, v := range known {
+			if a.Op == "=" {
+				fmt.Fprintf(os.Stderr, "KNOWN-EQ %v %s\n", v, tb.Show(a))
+			}
+		}
+	}
+	// case assumptions (proof hint): exhaustiveness is an obligation, the chosen alternative is assumed
+	if len(c.Cases) > 0 && len(e.caseCombo) == len(c.Cases) {
+		for gi, cg := range c.Cases {
+			var alts []*Term
+			for _, alt := range cg.Alts {
+				var conj []*Term
+				for _, a := range alt {
+					t := e.evalClause(fr, st, entry, a.Cl, nil)
+					if a.Neg {
+						t = tb.Not(t)
+					}
+					conj = append(conj, t)
+				}
+				alts = append(alts, tb.And(conj...))
+			}
+			first := true
+			for _, k := range e.caseCombo[:gi] {
+				if k != 0 {
+					first = false
+				}
+			}
+			if first && e.caseCombo[gi] == 0 {
+				e.addObligation(fr, st, "cases", cg.Name+".exhaustive", tb.Or(alts...), nil)
+			}
+			for _, a := range cg.Alts[e.caseCombo[gi]] {
+				t := e.evalClause(fr, st, entry, a.Cl, nil)
+				if t.IsLit() {
+					continue
+				}
+				if a.Neg {
+					e.addFact(st, tb.Not(t))
+				} else {
+					e.addFact(st, t)
+				}
+				known[t] = !a.Neg
+			}
+		}
+		tb.Known = known
 	}
 	nreq := len(e.facts)
 	_ = nreq
